@@ -1,6 +1,6 @@
 """C10 — stale or undecodable stored traces are skipped, never fatal.
 Engine E1+E4 (differential): stores populated directly with rows = every subset of valid rows x every subset (size <= 2,
-thorough <= 3) of 34 stale-row kinds x insertion orders, commands stub / stub -v / stub <qualname specifier> / apply;
+thorough <= 3) of 36 stale-row kinds x insertion orders, commands stub / stub -v / stub <qualname specifier> / apply;
 oracle: output equals the output obtained from the decodable rows alone, exit status 0, skipped rows counted exactly."""
 from __future__ import annotations
 
@@ -20,7 +20,7 @@ from mcheck.core.runner import VERIF, Ctx, Result, Violation
 
 ID = "C10"
 RULE = (
-    "rows = every subset of 4 valid rows x every subset of size 0..2 (thorough 0..3) of 34 stale kinds (module removed, "
+    "rows = every subset of 4 valid rows x every subset of size 0..2 (thorough 0..3) of 36 stale kinds (module removed, "
     "submodule removed, parent not a package, function removed / now int / class / settable property / property without "
     "getter / local scope, argument / return / yield class removed, class name bound to int / dict / None / instance, "
     "nested in generics and TypedDict fields, unknown parameter names) x 3 insertion orders x commands {stub, stub -v, "
@@ -74,6 +74,8 @@ STALE: Dict[str, Tuple[Tuple, bool, Optional[Tuple]]] = {
     "function-now-property-without-getter": (row(M, "Cls.nogetter", {"self": T(M, "Cls")}, INT), False, None),
     "function-now-property-with-deleter": (row(M, "Cls.deletable", {"self": T(M, "Cls")}, INT), False, None),
     "removed-parameter-with-removed-class": (row(M, "good1", {"zzz": T(M, "GoneClass"), "a": STR}, STR), False, None),
+    "arg-class-module-removed-whose-name-is-a-prefix-of-the-traced-module": (row(M, "good1", {"a": T("stale_fx.mo", "C")}, INT), False, None),
+    "return-class-package-removed-whose-name-is-a-prefix": (row(M, "Cls.meth", {"self": T(M, "Cls"), "x": INT}, T("stale_f", "C")), False, None),
     "function-in-local-scope": (row(M, "outer.<locals>.inner", {"a": INT}, INT), False, None),
     "arg-class-removed": (row(M, "good1", {"a": T(M, "GoneClass")}, INT), False, None),
     "arg-class-module-removed": (row(M, "good1", {"a": T("stale_fx.gone", "C")}, INT), False, None),
